@@ -6,7 +6,7 @@ from ..engine import Finding
 
 ID = 'C19'
 TITLE = 'container lifting maps leaf-wise, preserves shape, and is schedule independent'
-LEAN_FILES = ['Basic', 'Lift', 'Zip', 'Waiter', 'LiftDriver', 'WaiterDriver', 'LiftLemmas', 'WaiterLemmas', 'C19']
+LEAN_FILES = ['Basic', 'Lift', 'Zip', 'Waiter', 'LiftDriver', 'WaiterDriver', 'LiftLemmas', 'ZipLemmas', 'WaiterLemmas', 'ResDec', 'C19']
 RULE = ('distinct protocol lines on which the implementation returned a value and whose looped argument is a non-empty container '
         '(lift), whose arguments hold at least one sequence (zipper/lens/as_list/as_tuple), or whose structure holds at least one '
         'awaitable (waiter; every completion order is a distinct line)')
